@@ -220,7 +220,7 @@ def spaces(tier):
                   "package dir under cond-out, nested sub-directory, a nested git repository and a directory below it, leftover "
                   "output directories of failed runs) + outside the project" % len(COMMANDS), depth=3,
                   goals=["command outside any project", "a location is reported from a sub-directory", "archive/restore from a sub-directory succeeds"],
-                  outside=["symlinked working directories", "explorer command"])]
+                  outside=["explorer command"])]
 
 
 def canaries(tier):
